@@ -24,6 +24,40 @@ IMM_VALUES = [0, 1, -1, 42, 0xFFFF, 0x10000, -0x10000, 0x7FFFFFFF, 0x80000000, -
               -0x123456789ABCDEF, 0x7FFFFFFFFFFFFFFF, -0x8000000000000000, -0x7FFFFFFFFFFFFFFF, 0x0001000000000000, -2]
 
 
+class ConstMap(dict):
+    """the constants of a backend's config module by name.  A constant asked for under the name it has on the pinned tree
+    (audit/consts.toml, frozen by bin/gen-anchors) that is gone is found again when exactly one constant of the module has its type
+    and value and a name the pinned module did not have: a renamed constant keeps its role"""
+
+    def __init__(self, crate, items):
+        super().__init__(items)
+        self.crate = crate
+
+    def _pinned(self):
+        import os
+        import tomllib
+        from ..facts import VERIF
+        with open(os.path.join(VERIF, "audit", "consts.toml"), "rb") as fh:
+            rows = tomllib.load(fh).get("const", [])
+        return {r["name"]: r for r in rows if r["crate"] == self.crate}
+
+    def __missing__(self, name):
+        pinned = self._pinned()
+        row = pinned.get(name)
+        if row:
+            cands = [k for k, v in self.items() if k not in pinned and v.get("ty") == row["ty"] and
+                     str(v.get("val", v.get("repr", v.get("str")))) == row["value"]]
+            if len(cands) == 1:
+                return dict.__getitem__(self, cands[0])
+        raise AnalysisError("the constant %s of %s::config is gone and no single new constant of the module has its type and value" % (name, self.crate))
+
+    def get(self, name, default=None):
+        try:
+            return self[name]
+        except AnalysisError:
+            return default
+
+
 class Target:
     """per-backend construction of temporaries and knowledge of scratch locations (taken from the repo's consts)"""
 
@@ -33,7 +67,7 @@ class Target:
         self.crate = backend.BACKENDS[b]["crate"]
         fx = ctx.fx
         self.names = backend.register_names(ctx, b) if b != "rv64" else {}
-        self.consts = {k.split("::")[-1]: v for k, v in fx.consts.items() if k.startswith(self.crate + "::config::")}
+        self.consts = ConstMap(self.crate, {k.split("::")[-1]: v for k, v in fx.consts.items() if k.startswith(self.crate + "::config::")})
         self.reserved = self.consts["RESERVED"]["val"]
         self.instr_prefix = "<%s::Backend as axcut2backend::code::Instructions<" % self.crate
 
